@@ -72,6 +72,20 @@ theorem merge_sorted_perm {lt : α → α → Bool} (h : StrictWeak lt) (pick) (
 example : kmerge (fun a b : Nat => decide (a < b)) (fun _ => 1) (toQueue [[1, 4, 4], [], [2, 4], [0]]) = [0, 1, 2, 4, 4, 4] := by
   decide
 
+/-- **bufferedEntry_refines**: the per-run file buffers of `MergeQueue::Entry` (refilled by
+`Read` with `per_buffer` bytes when `current_` reaches `buffer_end_`) deliver the run record by
+record: a fresh entry views the whole run, each `Increment` drops exactly the current record and
+reports exhaustion exactly at the end of the run — for every buffer capacity ≥ 1 record. -/
+theorem bufferedEntry_refines {cap : Nat} (hcap : 0 < cap) :
+    (∀ run : List α, match BufEntry.read cap run with
+      | none => run = []
+      | some e => e.buf ≠ [] ∧ e.view = run) ∧
+    (∀ (e : BufEntry α) (x : α) (rest : List α), e.buf ≠ [] → e.view = x :: rest →
+      match e.increment cap with
+      | none => rest = []
+      | some e' => e'.buf ≠ [] ∧ e'.view = rest) :=
+  ⟨bufEntry_read hcap, bufEntry_step hcap⟩
+
 /-! ## The external sort -/
 
 /-- **extSort_sorted**: the output is in non-decreasing order, for every combiner that keeps a
@@ -311,6 +325,39 @@ theorem counting_prefix : Counting prefixLt Rec.key Rec.payload combineCounts wh
     constructor
     · intro ⟨h1, h2⟩; exact lexLt_tri _ _ h1 h2
     · intro hk; simp [prefixLt, hk, lexLt_irrefl]
+  inj := fun a b h1 h2 => by cases a; cases b; simp_all
+  add := fun a b c h => by
+    unfold combineCounts at h
+    by_cases hab : a.key = b.key
+    · simp only [hab, ↓reduceIte, Option.some.injEq] at h; subst h; simp [hab]
+    · simp [hab] at h
+  complete := fun a b h => by simp [combineCounts, h]
+
+theorem contextKey_injective (a b : List Nat) (h : contextKey a = contextKey b) : a = b := by
+  unfold contextKey at h
+  apply List.reverse_inj.mp
+  cases ha : a.reverse with
+  | nil =>
+    cases hb : b.reverse with
+    | nil => rfl
+    | cons y ys => rw [ha, hb] at h; simp at h
+  | cons x xs =>
+    cases hb : b.reverse with
+    | nil => rw [ha, hb] at h; simp at h
+    | cons y ys =>
+      rw [ha, hb] at h
+      simp only at h
+      have := List.append_inj' h rfl
+      simp only [List.cons.injEq, and_true] at this
+      rw [this.1, this.2]
+
+/-- the counting combiner under `ContextOrder` -/
+theorem counting_context : Counting contextLt Rec.key Rec.payload combineCounts where
+  sw := lexLt_strictWeak.comap _
+  keyEq := fun a b => by
+    constructor
+    · intro ⟨h1, h2⟩; exact contextKey_injective _ _ (lexLt_tri _ _ h1 h2)
+    · intro hk; simp [contextLt, hk, lexLt_irrefl]
   inj := fun a b h1 h2 => by cases a; cases b; simp_all
   add := fun a b c h => by
     unfold combineCounts at h
